@@ -413,3 +413,123 @@ def inline_pure(f, b, t, args):
         return sub(e)
     except Bail:
         return None
+
+
+# --------------------------------------------------------------------------------------------------
+# user-code / destructor sites
+# --------------------------------------------------------------------------------------------------
+
+import re as _re
+
+_BARE = _re.compile(r"^(?:&(?:mut )?)*(?:[A-Z][A-Za-z0-9_]*|<.*>::[A-Za-z0-9_]+)$")
+
+
+_STRUCTURAL_IMPLS = [
+    ("core::ops::index::Index", ("[",)),
+    ("core::ops::index::IndexMut", ("[",)),
+    ("core::slice::index::SliceIndex", ("core::ops::range::", "usize")),
+    ("core::ops::try_trait::Try", ("core::option::Option<", "core::result::Result<")),
+    ("core::ops::try_trait::FromResidual", ("core::option::Option<", "core::result::Result<")),
+    ("core::default::Default", ("[",)),
+    ("core::convert::From", ("core::ptr::non_null::NonNull<",)),
+    ("core::convert::Into", ("core::ptr::non_null::NonNull<",)),
+]
+
+
+def pred_class(p):
+    """classify an instantiated trait predicate of a callee: 'user' | 'local' | 'closure' | None"""
+    if p.get("auto") or not p.get("has_fn"):
+        return None
+    if p.get("closure"):
+        return "closure"
+    s = p["self"]
+    s2 = s
+    while s2.startswith("&"):
+        s2 = s2[1:]
+        if s2.startswith("mut "):
+            s2 = s2[4:]
+    if _BARE.match(s) or _re.match(r"^[A-Z][A-Za-z0-9_]*$", s2) or s2.startswith("<"):
+        return "user"
+    if s2.startswith("circular_buffer::"):
+        return "local"
+    if s2.startswith("{closure"):
+        return "closure"
+    # foreign type constructor over a caller type parameter. The impl lives in the crate of the
+    # trait or of the constructor (orphan rule); the reviewed structural ones below run no code
+    # of the element type. Anything else (e.g. Cloned<Iter<T>>: Iterator) is assumed to.
+    tr = p["trait"]
+    for trait_prefix, self_prefixes in _STRUCTURAL_IMPLS:
+        if tr == trait_prefix and any(s2.startswith(sp) for sp in self_prefixes):
+            return None
+    return "user"
+
+
+# external callees that take ownership of a value without ever running its destructor
+NO_DROP_OWNERS = {
+    "core::mem::maybe_uninit::MaybeUninit::write",
+    "core::mem::maybe_uninit::MaybeUninit::new",
+    "core::mem::replace",  # the displaced value is returned, the new one stored
+    "core::mem::forget",
+    "core::mem::manually_drop::ManuallyDrop::new",
+    "core::ptr::write",
+    "<*mut T>::write",
+}
+
+
+def user_sites(f):
+    """direct sites in f at which code chosen by the crate's user may run:
+    [(b, kind, desc)] kind in 'call-generic' | 'call-bound' | 'drop' | 'drop-call'"""
+    key = "user_sites"
+    if key in f._cache:
+        return f._cache[key]
+    out = []
+    for b in sorted(f.reachable(True)):
+        t = f.term(b)
+        if t["k"] == "call":
+            fn = mir.callee_of(t)
+            if fn is None:
+                out.append((b, "call-indirect", "indirect call"))
+                continue
+            path = fn.get("rpath") or fn["path"]
+            if fn.get("rkind") == "generic":
+                out.append((b, "call-generic", "%s on %s" % (fn["short"], ",".join(fn.get("args", [])[:1]))))
+                continue
+            local = fn.get("rlocal", fn.get("local", False))
+            if local:
+                continue
+            if path == "core::ptr::drop_in_place" or path == "core::mem::drop":
+                if any(_mentions_param(a) for a in fn.get("args", [])) or t.get("arg_user_drop"):
+                    out.append((b, "drop-call", "%s::<%s>" % (fn["short"], ",".join(fn.get("args", [])))))
+                continue
+            if fn.get("peeled_rlocal"):
+                continue
+            cls = [pred_class(p) for p in fn.get("preds", [])]
+            if "user" in cls:
+                tr = [p["trait"].split("::")[-1] + " for " + p["self"] for p in fn.get("preds", []) if pred_class(p) == "user"]
+                out.append((b, "call-bound", "%s (dispatches on %s)" % (fn.get("rshort") or fn["short"], "; ".join(tr))))
+                continue
+            if t.get("arg_user_drop") and path not in NO_DROP_OWNERS:
+                out.append((b, "drop-call", "%s takes ownership of a value with a user destructor" % (fn.get("rshort") or fn["short"])))
+        elif t["k"] == "drop":
+            if t.get("user_drop") and t.get("needs_drop", True):
+                out.append((b, "drop", "drop of %s: %s" % (f.local_name(t["place"]["local"]), t["ty"])))
+    f._cache[key] = out
+    return out
+
+
+def _mentions_param(tystr):
+    return bool(_re.search(r"(?<![A-Za-z0-9_:])[A-Z][A-Za-z0-9_]*(?![A-Za-z0-9_:<])", tystr.replace("MaybeUninit", "").replace("CircularBuffer", "")))
+
+
+def destroy_sites(f):
+    return [s for s in user_sites(f) if s[1] in ("drop", "drop-call")]
+
+
+def transitive(prog, short, pred_direct, kinds=None):
+    """does `short` or anything it reaches satisfy pred_direct(fn)?"""
+    eff = get(prog)
+    for x in eff.closure(short, kinds):
+        f = prog.fns.get(x)
+        if f is not None and pred_direct(f):
+            return True
+    return False
